@@ -539,13 +539,14 @@ func TestC16Levels(t *testing.T) { lvTest(t, "C16", "TestC16Levels", "C10", fals
 
 // ---- C10(b): exhaustive small universe -------------------------------------
 //
-// 3 keys whose raw byte order differs from their key order x versions 1..4: every
+// 3 keys whose raw byte order differs from their key order (one of them contains '@' and
+// extends another key) x versions 1..4: every
 // subset of the 12 possible entries, every split into two version-ordered tables,
 // block size one entry / all, with and without recovery; all (key, ts) queries
 // incl. absent keys before / between / after.
 
-var exhKeys = []string{"a", "a!", "a1"}
-var exhQueryKeys = []string{"A", "a", "a ", "a!", "a0", "a1", "b"}
+var exhKeys = []string{"a", "a!", "a@1"}
+var exhQueryKeys = []string{"A", "a", "a ", "a!", "a#", "a@", "a@1", "a@1@", "b"}
 
 const exhLayouts = 4096 * 5 * 2 * 2
 
